@@ -470,9 +470,9 @@ Lemma save_json_entries L s mode c d c2 :
   exists w outs fss (Ev Ef : list entry) sofas,
     fs_entries d = Ok (Ev ++ Ef) /\ doc_views d = Ok (map snd outs) /\
     find_all_fs true s c2 = Ok w /\ w_heap w = c_heap c2 /\ c_views c2 = c_views c /\
-    mapM (view_out L s c2) (c_views c) = Ok outs /\
-    mapM (fun io => do f <- fs_at c2 io ;; do m <- enc_fs L s c2 f ;; Ok (JObj m)) (sort_ids (w_all w)) = Ok fss /\
-    views_facts L s c2 (c_views c) outs Ev sofas /\ found_facts L s c2 (sort_ids (w_all w)) fss Ef /\
+    mapM (view_out L s c2) (tviews c) = Ok outs /\
+    mapM (fun io => do f <- fs_at c2 io ;; do m <- enc_fs L s c2 f ;; Ok (JObj m)) (found_list c2 w) = Ok fss /\
+    views_facts L s c2 (tviews c) outs Ev sofas /\ found_facts L s c2 (found_list c2 w) fss Ef /\
     (forall io, In io (w_all w) -> found_okP s c2 io) /\ arrs_okP s c2 (c_views c).
 Proof.
   intros HL Hsave Hwf Hpos.
@@ -489,16 +489,12 @@ Proof.
   split; [exact HV|]. split; [exact HF|]. split; [exact Hfound|exact Harrs].
 Qed.
 
-Lemma arrays_ids_flat c vs :
-  flat_map (fun o => match hget (c_heap c) o with
-                     | Some f => match o_id f with Some i => [i] | None => [] end
-                     | None => [] end)
-           (flat_map (fun v => match s_arr (v_sofa v) with Some o => [o] | None => [] end) vs)
-  = flat_map (arr_ids c) vs.
-Proof.
-  induction vs as [|v r IH]; [reflexivity|]. cbn [flat_map]. rewrite flat_map_app, IH. f_equal.
-  unfold arr_ids. destruct (s_arr (v_sofa v)); [cbn [flat_map]; rewrite app_nil_r|]; reflexivity.
-Qed.
+Lemma flat_map_flat_map {A B C} (f : B -> list C) (g : A -> list B) l :
+  flat_map f (flat_map g l) = flat_map (fun x => flat_map f (g x)) l.
+Proof. induction l as [|a r IH]; [reflexivity|]. cbn [flat_map]. rewrite flat_map_app, IH. reflexivity. Qed.
+(* the ids of the arrays the loop writes: those of the sofa byte arrays, each once *)
+Lemma arrays_ids_flat c tvs : flat_map (arr_id c) (flat_map arr_of tvs) = flat_map (arr_ids c) tvs.
+Proof. rewrite flat_map_flat_map. reflexivity. Qed.
 Lemma interleave_perm {A B} (f : A -> list B) (g : A -> B) l :
   Permutation (flat_map (fun a => f a ++ [g a]) l) (map g l ++ flat_map f l).
 Proof.
@@ -508,9 +504,11 @@ Proof.
   eapply Permutation_trans; [apply Permutation_sym, Permutation_middle|]. constructor. apply Permutation_app_swap_app.
 Qed.
 
-(* C04: all ids of the document are distinct.  Premise ids_distinctb: in the CAS the save leaves behind, the ids of the
-   sofas, of the structures found and of the sofa byte arrays are pairwise distinct (the structures found have distinct
-   ids by ReachProofs.find_all_each_once; that sofas and byte arrays are apart from them is a property of the CAS). *)
+(* C04: all ids of the document are distinct -- every %ID occurs once, also when a byte array holds the data of several
+   sofas or is indexed / referenced as well (d1bc860).  Premise ids_distinctb: in the CAS the save leaves behind, the ids of
+   the sofas, of the sofa byte arrays (each once) and of the other structures found are pairwise distinct (the structures
+   found have distinct ids by ReachProofs.find_all_each_once; that sofas and byte arrays are apart from them is a property of
+   the CAS). *)
 Theorem json_ids_distinct L s mode c d c2 :
   lex_ok L -> save_json L s mode c = Ok (d, c2) -> wf_jsonb s c2 = true -> 0 < c_next_id c ->
   ids_distinctb s c2 = true -> doc_ids_distinctb d = true.
@@ -519,17 +517,20 @@ Proof.
   destruct (save_json_entries L s mode c d c2 HL Hsave Hwf Hpos)
     as (w & outs & fss & Ev & Ef & sofas & Efs & _ & Ew & _ & Hviews & _ & _ & HV & HF & _).
   destruct HV as (V0 & _). destruct HF as (F0 & _).
-  assert (Hids : map fst (Ev ++ Ef) = flat_map (fun v => arr_ids c2 v ++ [s_xid (v_sofa v)]) (c_views c) ++ map fst (sort_ids (w_all w))).
+  assert (Hids : map fst (Ev ++ Ef) = flat_map (fun p => arr_ids c2 p ++ [s_xid (v_sofa (snd p))]) (tviews c) ++ map fst (found_list c2 w)).
   { rewrite map_app. f_equal; [exact V0|exact F0]. }
   unfold doc_ids_distinctb. rewrite Efs. unfold ids_distinctb in Hid. rewrite Ew in Hid.
-  unfold sofa_arrays in Hid. rewrite arrays_ids_flat, Hviews, map_map in Hid.
-  assert (P : Permutation (map (fun v => s_xid (v_sofa v)) (c_views c) ++ map fst (w_all w) ++ flat_map (arr_ids c2) (c_views c))
-                          (flat_map (fun v => arr_ids c2 v ++ [s_xid (v_sofa v)]) (c_views c) ++ map fst (sort_ids (w_all w)))).
+  assert (Hsa : sofa_arrays_once c2 = flat_map arr_of (tviews c)).
+  { rewrite tviews_arrays. unfold sofa_arrays_once, sofa_arrays. rewrite Hviews. reflexivity. }
+  rewrite Hsa, arrays_ids_flat, Hviews, map_map in Hid.
+  assert (P : Permutation (map (fun v => s_xid (v_sofa v)) (c_views c) ++ map fst (unwritten (sofa_arrays c2) (w_all w)) ++ flat_map (arr_ids c2) (tviews c))
+                          (flat_map (fun p => arr_ids c2 p ++ [s_xid (v_sofa (snd p))]) (tviews c) ++ map fst (found_list c2 w))).
   { apply Permutation_sym.
-    eapply Permutation_trans; [apply Permutation_app_tail; apply interleave_perm|].
+    eapply Permutation_trans; [apply Permutation_app_tail; apply (interleave_perm (arr_ids c2) (fun p => s_xid (v_sofa (snd p))))|].
+    rewrite <- (map_map snd (fun v => s_xid (v_sofa v))). unfold tviews at 1. rewrite tag_views_snd.
     rewrite <- app_assoc. apply Permutation_app_head.
     eapply Permutation_trans; [apply Permutation_app_comm|]. apply Permutation_app_tail.
-    apply Permutation_map. apply sort_ids_is_perm. }
+    apply Permutation_map. unfold found_list, unwritten. apply filter_perm. apply sort_ids_is_perm. }
   rewrite <- Hids in P. exact (znodup_perm _ _ P Hid).
 Qed.
 
@@ -833,16 +834,31 @@ Proof.
   destruct HV as (V0 & V1 & V2 & _). destruct HF as (F0 & F1 & F2 & _).
   unfold refs_wfb in Hrw. rewrite Ew in Hrw. rewrite !andb_true_iff in Hrw. destruct Hrw as [[Hnonull Harrsch] Hsofaslot].
   set (ids := map fst (Ev ++ Ef)).
-  assert (Hids : ids = flat_map (fun v => arr_ids c2 v ++ [s_xid (v_sofa v)]) (c_views c) ++ map fst (sort_ids (w_all w))).
+  assert (Hids : ids = flat_map (fun p => arr_ids c2 p ++ [s_xid (v_sofa (snd p))]) (tviews c) ++ map fst (found_list c2 w)).
   { unfold ids. rewrite map_app. f_equal; [exact V0|exact F0]. }
+  assert (Htv : forall p, In p (tviews c) -> In (snd p) (c_views c)).
+  { intros p Hp. rewrite <- (tag_views_snd (c_views c) []). apply in_map. exact Hp. }
+  assert (Hview_in : forall p i, In p (tviews c) -> In i (arr_ids c2 p ++ [s_xid (v_sofa (snd p))]) -> In i ids).
+  { intros p i Hp Hi. rewrite Hids. apply in_or_app. left. apply in_flat_map. exists p. split; assumption. }
+  (* a sofa byte array is written by the views loop, once *)
+  assert (Harr_in : forall o f i, In o (sofa_arrays c2) -> hget (c_heap c2) o = Some f -> o_id f = Some i -> In i ids).
+  { intros o f i Ho Hg Hi. apply omem_In in Ho. rewrite <- sofa_arrays_once_mem in Ho. apply omem_In in Ho.
+    assert (Hsa : sofa_arrays_once c2 = flat_map arr_of (tviews c)).
+    { rewrite tviews_arrays. unfold sofa_arrays_once, sofa_arrays. rewrite Hviews. reflexivity. }
+    rewrite Hsa in Ho. apply in_flat_map in Ho. destruct Ho as (p & Hp & Hop).
+    apply (Hview_in p i Hp). apply in_or_app. left. unfold arr_ids. apply in_flat_map. exists o. split; [exact Hop|].
+    rewrite Hg, Hi. left. reflexivity. }
   assert (Hfound_in : forall i, In i (map fst (w_all w)) -> In i ids).
-  { intros i Hi. rewrite Hids. apply in_or_app. right. eapply Permutation_in; [apply Permutation_map, Permutation_sym, sort_ids_is_perm|exact Hi]. }
-  assert (Hview_in : forall v i, In v (c_views c) -> In i (arr_ids c2 v ++ [s_xid (v_sofa v)]) -> In i ids).
-  { intros v i Hv Hi. rewrite Hids. apply in_or_app. left. apply in_flat_map. exists v. split; assumption. }
+  { intros i Hi. apply in_map_iff in Hi. destruct Hi as ([i' o] & Ei & Hio). cbn [fst] in Ei. subst i'.
+    destruct (omem o (sofa_arrays c2)) eqn:Eo.
+    - destruct (Hfound (i, o) Hio) as (f & Hg & _ & Hid). cbn [fst snd] in Hg, Hid. apply (Harr_in o f i); [apply omem_In; exact Eo|exact Hg|exact Hid].
+    - rewrite Hids. apply in_or_app. right. change i with (fst (i, o)). apply in_map. unfold found_list, unwritten. apply filter_In.
+      split; [apply (proj2 (sort_ids_In _ _)); exact Hio|]. cbn [snd]. rewrite Eo. reflexivity. }
   assert (Hsofa_in : forall v, In v (c_views c2) -> In (s_xid (v_sofa v)) ids).
-  { intros v Hv. rewrite Hviews in Hv. apply (Hview_in v _ Hv). apply in_or_app. right. left. reflexivity. }
+  { intros v Hv. rewrite Hviews in Hv. rewrite <- (tag_views_snd (c_views c) []) in Hv. apply in_map_iff in Hv. destruct Hv as (p & <- & Hp).
+    apply (Hview_in p _ Hp). apply in_or_app. right. left. reflexivity. }
   (* where an entry of the views loop comes from *)
-  assert (HEv : forall e, In e Ev -> exists v out, In v (c_views c) /\ view_out L s c2 v = Ok out /\ In (JObj (snd e)) (fst out)).
+  assert (HEv : forall e, In e Ev -> exists p out, In p (tviews c) /\ view_out L s c2 p = Ok out /\ In (JObj (snd e)) (fst out)).
   { intros e He. assert (Hj : In (entry_json e) (List.concat (map fst outs))) by (rewrite V1; apply in_map; exact He).
     apply in_concat in Hj. destruct Hj as (js & Hjs & Hj). apply in_map_iff in Hjs. destruct Hjs as (out & <- & Hout).
     destruct (mapM_In _ _ _ Houts out Hout) as (v & Hv & Eo). exists v, out. repeat split; assumption. }
@@ -851,10 +867,11 @@ Proof.
     apply forallb_forall. intros e He. apply forallb_forall. intros i Hi. apply zmem_In.
     apply in_app_or in He. destruct He as [He|He].
     + (* written by the views loop: a byte array or a sofa *)
-      destruct (HEv e He) as (v & out & Hv & Eo & Hj). unfold view_out in Eo.
+      destruct (HEv e He) as (p & out & Hp & Eo & Hj). pose proof (Htv p Hp) as Hv. set (v := snd p) in *. unfold view_out in Eo. fold v in Eo.
       apply bind_Ok in Eo as (jv & _ & Eo). apply bind_Ok in Eo as (arrs & Ea & Eo). apply bind_Ok in Eo as (ms & Es & Eo).
       inversion Eo; subst out. cbn [fst] in Hj. apply in_app_or in Hj. destruct Hj as [Hj|[Hj|[]]].
-      * unfold arr_out in Ea. destruct (s_arr (v_sofa v)) as [o|] eqn:Eo'; [|inversion Ea; subst arrs; destruct Hj].
+      * unfold arr_out in Ea. fold v in Ea. destruct (s_arr (v_sofa v)) as [o|] eqn:Eo'; [|inversion Ea; subst arrs; destruct Hj].
+        destruct (omem o (fst p)); [inversion Ea; subst arrs; destruct Hj|].
         destruct (Harrs v o Hv Eo') as (f & i' & Hg & [Ht _] & _). rewrite Hg in Ea. apply bind_Ok in Ea as (m & Em & Ea). inversion Ea; subst arrs.
         destruct Hj as [Hj|[]]. inversion Hj as [Hm]. apply String.eqb_eq in Ht.
         destruct e as [ie me]. cbn [snd] in Hm. subst me. rewrite (enc_fs_bytes_norefs L s c2 f m ie Ht Em) in Hi. destruct Hi.
@@ -863,10 +880,12 @@ Proof.
         { rewrite Forall_forall in V2. specialize (V2 _ He). unfold id_first in V2. cbn [fst snd] in V2.
           destruct (enc_sofa_head L c2 (v_sofa v) ms Es) as [Hid _]. unfold id_first in Hid. cbn [fst snd] in Hid. rewrite Hid in V2. inversion V2. reflexivity. }
         subst ie. destruct (enc_sofa_facts L c2 (v_sofa v) ms Es) as [_ Hr]. destruct (Hr i Hi) as (o & f & Ho & Hg & Hio).
-        apply (Hview_in v i Hv). apply in_or_app. left. unfold arr_ids. rewrite Ho, Hg, Hio. left. reflexivity.
+        apply (Harr_in o f i); [|exact Hg|exact Hio]. unfold sofa_arrays. rewrite Hviews. apply in_flat_map. exists v. split; [exact Hv|].
+        rewrite Ho. left. reflexivity.
     + (* a structure found *)
       rewrite F1 in Efss. pose proof (found_entries _ _ _ Efss F0) as F.
-      destruct (Forall2_In_r _ _ _ _ F He) as (io & Hio & Hfst & Hg). apply (proj1 (sort_ids_In _ _)) in Hio.
+      destruct (Forall2_In_r _ _ _ _ F He) as (io & Hio & Hfst & Hg). unfold found_list, unwritten in Hio. apply filter_In in Hio. destruct Hio as [Hio _].
+      apply (proj1 (sort_ids_In _ _)) in Hio.
       apply bind_Ok in Hg as (f & Ef' & Hg). apply bind_Ok in Hg as (m & Em & Hg). inversion Hg as [Hm].
       unfold fs_at in Ef'. destruct (hget (c_heap c2) (snd io)) as [f'|] eqn:Eg; [|discriminate]. inversion Ef'; subst f'.
       destruct (Hfound io Hio) as (f'' & Eg' & Hok & _). rewrite Eg in Eg'. inversion Eg'; subst f''.
@@ -875,7 +894,7 @@ Proof.
       rewrite Forall_forall in R. exact (R i Hi).
   - (* views *)
     apply forallb_forall. intros kv Hkv. apply in_map_iff in Hkv. destruct Hkv as (out & <- & Hout).
-    destruct (mapM_In _ _ _ Houts out Hout) as (v & Hv & Eo). unfold view_out in Eo.
+    destruct (mapM_In _ _ _ Houts out Hout) as (p & Hp & Eo). pose proof (Htv p Hp) as Hv. set (v := snd p) in *. unfold view_out in Eo. fold v in Eo.
     apply bind_Ok in Eo as (jv & Ejv & Eo). apply bind_Ok in Eo as (arrs & Ea & Eo). apply bind_Ok in Eo as (ms & Es & Eo).
     inversion Eo; subst out. cbn [snd]. unfold enc_view in Ejv. apply bind_Ok in Ejv as (mids & Emids & Ejv). inversion Ejv; subst jv.
     unfold view_refs_ok. cbn [snd fst jget alookup]. change (String.eqb K_SOFA K_SOFA) with true. change (String.eqb K_MEMBERS K_SOFA) with false.
